@@ -98,12 +98,13 @@ PROPS = {
         "assumptions": COMMON_ASSUME,
     },
     "C07": {
-        "rules": ["R-STATE", "R-DERIVED", "R-FIXEDBUF", "R-INITCOVER", "R-EXTENT", "R-KILLUSE", "R-DANGLING", "R-ALPHAGUARD", "R-DEDUP", "R-IDGUARD", "R-SHIFT", "R-CLAMP", "R-ZEROFILL", "R-GROW", "R-SLACK", "R-ALLOCFORM", "R-LOCKSET", "R-BYTEINDEX", "R-REFCOUNT", "R-COUNTERWIDTH", "R-BUCKET", "R-PREDINDEX"],
+        "rules": ["R-CHUNKINIT", "R-ITERSTATE", "R-STATE", "R-DERIVED", "R-FIXEDBUF", "R-INITCOVER", "R-EXTENT", "R-KILLUSE", "R-DANGLING", "R-ALPHAGUARD", "R-DEDUP", "R-IDGUARD", "R-SHIFT", "R-CLAMP", "R-ZEROFILL", "R-GROW", "R-SLACK", "R-ALLOCFORM", "R-LOCKSET", "R-BYTEINDEX", "R-REFCOUNT", "R-COUNTERWIDTH", "R-BUCKET", "R-PREDINDEX"],
         "explanation": "Structural preconditions of memory safety, each a necessary condition with confirmed instances: no operation consults state the "
                        "creation path never set, saved extents equal allocated extents, nothing reachable from a dictionary is freed by an operation or "
                        "left dangling by a loader, pattern bytes are range-checked before indexing, duplicate iterators have their sentinel, ids are "
                        "guarded, shifts stay below the operand width over the whole legal domain, bucket size 0/1 cannot reach the arithmetic.",
-        "decided": ["a scalar member computed from the data by the building path and read by queries/getSize/save is not left at a constant on the load path: it is read back or recomputed (R-DERIVED)",
+        "decided": ["every field an iterator's hasNext/next/size reads is assigned by each constructor of the concrete iterator class (R-ITERSTATE; found the block table iterator's size, fixed 1935db3)",
+                    "a scalar member computed from the data by the building path and read by queries/getSize/save is not left at a constant on the load path: it is read back or recomputed (R-DERIVED)",
                     "stores into fixed-size arrays through a run-time index have some bound on the way to the store (R-FIXEDBUF; only the absence of any bound is reported)",
                     "no uninitialised/NULL state is consulted (R-STATE, R-INITCOVER, R-ZEROFILL)", "no over-read at save (R-EXTENT)",
                     "no use after free across API histories, no dangling loader state (R-KILLUSE, R-DANGLING)",
@@ -210,13 +211,14 @@ PROPS = {
         "assumptions": COMMON_ASSUME,
     },
     "C13": {
-        "rules": ["R-OUTLEN", "R-WINDOW", "R-DEDUP", "R-DUPSKIP", "R-FMMAP", "R-STUB", "R-IDRANGE", "R-STALESIZE", "R-CHUNKINIT"],
+        "rules": ["R-ITERSTATE", "R-OUTLEN", "R-WINDOW", "R-DEDUP", "R-DUPSKIP", "R-FMMAP", "R-STUB", "R-IDRANGE", "R-STALESIZE", "R-CHUNKINIT"],
         "explanation": "Iterator protocol rules: every next() stores the length on every path to a non-null return and advances a field that "
                        "hasNext() reads (or consumes its work list) on every path; windows given at every extractTable/extractPrefix site match "
                        "the class protocol; duplicate-skipping iterators never read past their array (sentinel + extent); iterator steps write "
                        "only iterator-owned memory. "
                        "Added later: duplicate-skip loops, FM row mapping of the iterators, the contiguous ID iterator's range, stale size bounds, the chunk-scan start state.",
-        "decided": ["length reported and cursor advanced on every path (R-OUTLEN)", "window = numElements / right-left+1 at every construction site (R-WINDOW)",
+        "decided": ["every field an iterator's hasNext/next/size reads is assigned by each constructor of the concrete iterator class (R-ITERSTATE; found the block table iterator's size, fixed 1935db3)",
+                    "length reported and cursor advanced on every path (R-OUTLEN)", "window = numElements / right-left+1 at every construction site (R-WINDOW)",
                     "sentinel and extent for duplicate skipping (R-DEDUP)", "XBW::extractTable is an effect-free stub (R-STUB)",
                     "the contiguous ID iterator yields exactly [left,right] and nothing for the (NORESULT,NORESULT) pair (R-IDRANGE)",
                     "iterator bounds taken from container.size() are not made stale by a later shrink of the container (R-STALESIZE)",
